@@ -199,7 +199,7 @@ fn main() {
     rep.count("exhaustive_population_pairs", total as u64);
     // random larger populations
     let mut rng = SplitMix64::new(rep.seed).fork(0xC12);
-    for k in 0..rep.tier.pick(2_000, 100_000) {
+    for k in 0..rep.tier.pick(2_000, 3_000_000) {
         let mut tag = 0;
         let mut pop = |rng: &mut SplitMix64| -> Vec<T> {
             (0..rng.usize(13))
